@@ -1,7 +1,153 @@
 import IbModel.Util.Wire
-/-! Driver handlers for C19 (request kinds served for that property). -/
-namespace IB.D19
+import IbModel.Model.CloudGlob
+/-!
+Driver handlers for C19. Strings travel as `x<hex of UTF-8>` (so the empty string is `x`), records as
+opaque tokens `r<hex>`.
 
-def handlers : List (String × (List String → String)) := []
+* `GLOB2RE x<pat>`                       ↦ `x<regex source>`
+* `GLOBPREFIX x<pat>`                    ↦ `NONE` | `SOME x<prefix>`
+* `GLOBMATCH x<pat> x<key>…`             ↦ `OK x<key>…` | `ERR <class>`        (`expand_cloud_glob`)
+* `GLOBREQ x<pat> x<key>…`               ↦ same, `expand_cloud_glob_required`
+* `GLOBALL x<pat> x<alphabet> <n>`       ↦ `OK <count> x<key>…` over ALL keys of length ≤ n over the alphabet
+* `CLOUDJSONL x<key> r…`                 ↦ `W:<codec> R:OK r…` | `W:<codec> R:ERR`
+* `GLOBREAD x<pat> x<key>=r,r,… …`       ↦ `OK r…` | `ERR <class>`             (`read_cloud_jsonl_glob`)
+-/
+namespace IB.D19
+open IB.Wire IB.CloudGlob
+
+def str? (tok : String) : Option Str :=
+  match tok.toList with
+  | 'x' :: h =>
+    match hexToBytes? h with
+    | some bs =>
+      if bs.all (· < 256) then
+        (String.fromUTF8? (ByteArray.mk (bs.map (fun b => UInt8.ofNat b)).toArray)).map String.toList
+      else none
+    | none => none
+  | _ => none
+
+def strTok (s : Str) : String := "x" ++ stringToHex (String.ofList s)
+
+def errName : Err → String
+  | .invalidInput => "InvalidInput"
+  | .notFound => "NotFound"
+  | .internal => "InternalError"
+
+def keysAnswer : Except Err (List Str) → String
+  | .error e => "ERR " ++ errName e
+  | .ok ks => String.intercalate " " ("OK" :: ks.map strTok)
+
+def codecName : Codec → String
+  | .plain => "plain" | .gzip => "gzip" | .zstd => "zstd" | .bzip2 => "bzip2" | .xz => "xz"
+
+/-- toy serialiser/codec used to EXECUTE the model: a record is its own token; a compressed blob is the
+    text behind a one-word signature that is not a scalar value -/
+def codecTag : Codec → Nat
+  | .plain => 0 | .gzip => 0x110001 | .zstd => 0x110002 | .bzip2 => 0x110003 | .xz => 0x110004
+
+def isHexChar (c : Char) : Bool := ('0' ≤ c ∧ c ≤ '9') || ('a' ≤ c ∧ c ≤ 'f')
+
+def toyText (b : List Nat) : Option Str :=
+  if b.all (· < 0x110000) then some (b.map Char.ofNat) else none
+
+def toy : Ext String (List Nat) where
+  ser r := r.toList
+  de l := match l with
+    | 'r' :: h => if h.all isHexChar then some (String.ofList l) else none
+    | _ => none
+  enc c t := match c with
+    | .plain => t.map Char.toNat
+    | c => codecTag c :: t.map Char.toNat
+  dec c b := match c with
+    | .plain => toyText b
+    | c => match b with
+      | tag :: rest => if tag = codecTag c then toyText rest else none
+      | [] => none
+  magic b := match b with
+    | tag :: _ =>
+      if tag = 0x110001 then some .gzip else if tag = 0x110002 then some .zstd
+      else if tag = 0x110003 then some .bzip2 else if tag = 0x110004 then some .xz else none
+    | [] => none
+
+def recsAnswer : Except Err (List String) → String
+  | .error e => "ERR " ++ errName e
+  | .ok rs => String.intercalate " " ("OK" :: rs)
+
+/-- all strings of length ≤ n over the alphabet -/
+def allKeys (alpha : Str) : Nat → List Str
+  | 0 => [[]]
+  | n + 1 => [] :: (allKeys alpha n).flatMap (fun k => alpha.map (fun c => c :: k))
+
+def isRecTok (t : String) : Bool :=
+  match t.toList with
+  | 'r' :: h => h.all isHexChar
+  | _ => false
+
+def handleGlob2Re : List String → String
+  | [p] => match str? p with
+    | some p => strTok (globToRegex p)
+    | none => "BAD-OP"
+  | _ => "BAD-OP"
+
+def handlePrefix : List String → String
+  | [p] => match str? p with
+    | some p => match literalPrefix p with
+      | none => "NONE"
+      | some q => "SOME " ++ strTok q
+    | none => "BAD-OP"
+  | _ => "BAD-OP"
+
+def handleMatch (required : Bool) : List String → String
+  | p :: ks => match str? p, ks.mapM str? with
+    | some p, some ks =>
+      -- the store holds each key once (puts of the same key overwrite)
+      let s : Store Unit := ks.foldl (fun s k => put s k ()) []
+      keysAnswer (if required then expandGlobRequired (keysOf s) p else expandGlob (keysOf s) p)
+    | _, _ => "BAD-OP"
+  | _ => "BAD-OP"
+
+def handleAll : List String → String
+  | [p, a, n] => match str? p, str? a, parseNat? n with
+    | some p, some a, some n =>
+      if n > 6 then "BAD-OP" else
+      match expandGlob ((allKeys a n).eraseDups) p with
+      | .error e => "ERR " ++ errName e
+      | .ok ks => String.intercalate " " ("OK" :: toString ks.length :: ks.map strTok)
+    | _, _, _ => "BAD-OP"
+  | _ => "BAD-OP"
+
+def handleJsonl : List String → String
+  | k :: rs => match str? k with
+    | some k =>
+      if rs.all isRecTok then
+        let s := writeObj toy [] k rs
+        let r := match readObj toy s k with
+          | .ok out => String.intercalate " " ("R:OK" :: out)
+          | .error _ => "R:ERR"
+        "W:" ++ codecName (writerCodec k) ++ " " ++ r
+      else "BAD-OP"
+    | none => "BAD-OP"
+  | _ => "BAD-OP"
+
+def objTok? (t : String) : Option (Str × List String) :=
+  match t.splitOn "=" with
+  | [k, rs] => do
+    let k ← str? k
+    let rs := if rs = "" then [] else rs.splitOn ","
+    if rs.all isRecTok then some (k, rs) else none
+  | _ => none
+
+def handleRead : List String → String
+  | p :: objs => match str? p, objs.mapM objTok? with
+    | some p, some objs =>
+      let s := writeAll toy [] objs
+      recsAnswer (readGlob toy s p)
+    | _, _ => "BAD-OP"
+  | _ => "BAD-OP"
+
+def handlers : List (String × (List String → String)) :=
+  [("GLOB2RE", handleGlob2Re), ("GLOBPREFIX", handlePrefix), ("GLOBMATCH", handleMatch false),
+   ("GLOBREQ", handleMatch true), ("GLOBALL", handleAll), ("CLOUDJSONL", handleJsonl),
+   ("GLOBREAD", handleRead)]
 
 end IB.D19
